@@ -19,8 +19,10 @@ UNSURE / deliberately abstracted (nothing below is guessed silently):
 * U3. One cache directory. `Create` checks and writes the `_manifest` key in the cache of
   `o.directory`, while `Open` looks in `options.Directory` when it is given; with a
   `Directory` option different from the instance's, `Create(..., LocalOnly)` writes the key in one
-  cache and `Open` looks for it in another (refused "database doesn't exist"). Not modelled: `local`
-  is the cache of `o.directory` and the `Directory` option is taken to be absent.
+  cache and `Open` looks for it in another (refused "database doesn't exist"). `local` is the cache of
+  `o.directory`: a `Directory` option given to `Create` changes nothing in this model (the address
+  family passes one in a third of its creations: the second `Create` is still refused); `Open` is
+  modelled without the option.
 * U4. Access controller. Only the write list is kept; the controller type is the default `"ipfs"`
   and is registered; `SkipManifest` is false. (With `SkipManifest` in `Open`'s options
   `ResolveManifest` takes the controller *type and parameters from the caller's options* instead of
